@@ -5,6 +5,7 @@ open Wire Sym
 /-! Line-protocol driver for the C06 model.  One expression tree per line, prefix notation:
     `V <S|B|I|R> <label> <bias> <lb|-> <ub|->`, `C <q>`, `E <S|B> <offset>` (variable-free BQM), `ADD a b`, `SUB a b`, `MUL a b`, `NEG a`,
     `DIV <q> a`, `POW <n> a`, `IADD a b`, `ISUB a b`, `IMUL a b`, `IDIV <q> a`, `Q0`, `Q1 a`,
+    `CMP <LE|GE|EQ|RLE|RGE|REQ> <q> a` (comparison with a number),
     `Q3 a b c`, `VIEWO a` / `VIEWC a` (objective / constraint view), `ADDS a` … (`t op t`).
     Answer: `err <class>` | `ok num <q>` | `ok <bqm:S|bqm:B|qm|view> <vars>;<quad>;<offset>` with
     vars = `label:vt:lb:ub:bias,…` in model order and quad = `i:j:bias,…` (variable positions, i ≤ j,
@@ -74,7 +75,27 @@ def showVal : Val → String
 def showErr : Err → String
   | .type => "type" | .value => "value" | .zerodiv => "zerodiv"
 
+def showSense : Sense → String
+  | .le => "le" | .ge => "ge" | .eq => "eq"
+
+def answerCmp (kind q : String) (rest : List String) : String :=
+  match parseRat? q, parseExpr rest with
+  | some q, some (e, []) =>
+    let c : Option SymCmp := match kind with
+      | "LE" => some (.le e q) | "GE" => some (.ge e q) | "EQ" => some (.eq e q)
+      | "RLE" => some (.rle q e) | "RGE" => some (.rge q e) | "REQ" => some (.req q e) | _ => none
+    match c with
+    | none => "bad-line"
+    | some c => match buildCmp c with
+      | .ok (some k) => s!"ok cmp {showSense k.sense} {showRat k.rhs} " ++ showVal (.mdl k.lhs)
+      | .ok none => "ok bool"
+      | .error er => "err " ++ showErr er
+  | _, _ => "bad-line"
+
 def answer (line : String) : String :=
+  match (line.trimAscii.toString.splitOn " ").filter (· ≠ "") with
+  | "CMP" :: kind :: q :: rest => answerCmp kind q rest
+  | _ =>
   match parseExpr ((line.trimAscii.toString.splitOn " ").filter (· ≠ "")) with
   | some (e, []) =>
     match build e with
